@@ -8,6 +8,8 @@ import registry, manifest_meta as mm
 checks = []
 for pid in sorted(registry.PROPS):
     P = registry.PROPS[pid]
+    if P.get('claimed') is False:
+        continue
     meta = mm.CHECKS[pid]
     has_thorough = any(u.get("tier") == "thorough" for u in P["units"])
     c = dict(property_id=pid,
@@ -20,9 +22,10 @@ for pid in sorted(registry.PROPS):
              level_note=meta["note"],
              technique=meta["technique"])
     checks.append(c)
-na = [dict(property_id=k, reason=v) for k, v in sorted(mm.NOT_APPLICABLE.items()) if k not in registry.PROPS]
+claimed = {k for k, v in registry.PROPS.items() if v.get('claimed') is not False}
+na = [dict(property_id=k, reason=v) for k, v in sorted(mm.NOT_APPLICABLE.items()) if k not in claimed]
 all_ids = [json.loads(l)["id"] for l in open(os.path.join(HERE, "..", "properties.jsonl"))]
-missing = [i for i in all_ids if i not in registry.PROPS and i not in mm.NOT_APPLICABLE]
+missing = [i for i in all_ids if i not in claimed and i not in mm.NOT_APPLICABLE]
 assert not missing, f"properties neither claimed nor not_applicable: {missing}"
 m = dict(version=1,
          setup_cmd="./setup.sh",
